@@ -1,0 +1,42 @@
+//! Verification hooks (only compiled with `--cfg jubako_verif`).
+//!
+//! Nothing here changes the behaviour of the library: `point` calls a callback
+//! installed by a test harness (or nothing), the two constructors expose code paths
+//! that are otherwise only reachable from inside the crate.
+#![cfg(jubako_verif)]
+
+use crate::bases::*;
+use crate::reader::ByteRegion;
+use std::io::Read;
+use std::sync::{Arc, OnceLock};
+
+type Hook = Box<dyn Fn(&'static str, u64, u64) + Send + Sync>;
+
+static HOOK: OnceLock<Hook> = OnceLock::new();
+
+/// Install the schedule-point callback (once per process).
+pub fn set_hook(hook: Hook) -> bool {
+    HOOK.set(hook).is_ok()
+}
+
+#[inline]
+pub(crate) fn point(site: &'static str, a: u64, b: u64) {
+    if let Some(h) = HOOK.get() {
+        h(site, a, b)
+    }
+}
+
+/// A region backed by the real background decoder, fed by `reader`
+/// (the harness decides when each chunk becomes available).
+pub fn decoder_region<T: Read + Send + 'static>(reader: T, size: usize) -> ByteRegion {
+    let source: Arc<dyn Source> = Arc::new(SeekableDecoder::new(reader, ASize::new(size)));
+    ByteRegion {
+        source,
+        region: Region::new_from_size(Offset::zero(), Size::from(size)),
+    }
+}
+
+/// The same bytes as `reader`, moved to memory (read for < 4 KiB, mmap otherwise).
+pub fn in_memory(reader: &Reader) -> Result<Reader> {
+    reader.cut(Offset::zero(), reader.size(), true)
+}
